@@ -32,73 +32,209 @@ func feError(format string, args ...any) {
 type Rec struct {
 	Type types.Type
 	CVal constant.Value
+	Ref  bool // recorded on the assignment-target side
+	CommaOk bool // compiled in two-value (comma-ok) mode: Type is the tuple (T, bool)
+}
+
+// OpEvent is one builder operation as seen by the monitor (internal/mon semantics of DESIGN.md E1).
+type OpEvent struct {
+	Name          string
+	Before, After int // operand stack length
+	Delta         int // documented arity (NoArity if context dependent)
+}
+
+const NoArity = -9999
+
+// PkgUse logs one package-qualified reference: file it was made from and the import path intended.
+type PkgUse struct {
+	File string
+	Path string
+	Name string
 }
 
 type Compiler struct {
-	Recs    map[ast.Expr]Rec
-	Pkg     *gogen.Package
+	Recs     map[ast.Expr]Rec
+	Decls    map[string]types.Type // "func/name" or "pkg/name" -> type the builder exposes for the declared object
+	Pkg      *gogen.Package
+	Mon      func(ev OpEvent)
+	PkgUses  []PkgUse
+	Ops      int
+	OpKinds  map[string]int
+	Recover  bool     // statement-level error recovery (C16): ResetInit/ResetStmt and continue
+	Reported []string // errors swallowed by recovery
+	AfterOp  func()   // called after every operation (C18 yields here)
+
 	cb      *gogen.CodeBuilder
-	imports map[string]string // local name -> path
+	imports map[string]string // local name -> path (current file)
+	curFile string
 	tparams []map[string]*types.TypeParam
 	labels  map[string]*gogen.Label
-	Trace   func(op string)
+	inInit  int
+	funcKey string
 }
 
 type funcBody struct {
 	fn   *gogen.Func
 	decl *ast.FuncDecl
 	tps  map[string]*types.TypeParam
+	file string
+	imps map[string]string
 }
 
-func (c *Compiler) op(name string) {
-	if c.Trace != nil {
-		c.Trace(name)
+// do runs one builder operation under the monitor.
+func (c *Compiler) do(name string, delta int, f func()) {
+	n0 := c.cb.InternalStack().Len()
+	f()
+	c.Ops++
+	if c.OpKinds != nil {
+		c.OpKinds[name]++
+	}
+	n1 := c.cb.InternalStack().Len()
+	if c.Mon != nil {
+		c.Mon(OpEvent{name, n0, n1, delta})
+	}
+	if delta != NoArity && n1-n0 != delta {
+		panic(&Imbalance{fmt.Sprintf("operation %s changed the operand stack by %d (documented arity %d)", name, n1-n0, delta)})
+	}
+	if c.AfterOp != nil {
+		c.AfterOp()
 	}
 }
 
-// CompileFile drives pkg with the declarations of f.
-func (c *Compiler) CompileFile(f *ast.File) {
+// File is one source file of the package being compiled.
+type File struct {
+	Name string // file name handed to SetCurFile ("" = default file)
+	AST  *ast.File
+}
+
+// CompileFile drives pkg with the declarations of one file.
+func (c *Compiler) CompileFile(f *ast.File) { c.CompileFiles([]File{{"", f}}) }
+
+func (c *Compiler) setFile(name string, imps map[string]string) {
+	if name != c.curFile {
+		if _, err := c.Pkg.SetCurFile(name, true); err != nil {
+			feError("SetCurFile: %v", err)
+		}
+		c.curFile = name
+	}
+	c.imports = imps
+}
+
+// CompileFiles drives pkg the way a compiler front end does: imports, constants, type names and bodies,
+// function signatures, variables, then function bodies.
+func (c *Compiler) CompileFiles(files []File) {
 	c.cb = c.Pkg.CB()
-	c.imports = map[string]string{}
-	for _, im := range f.Imports {
-		path, _ := strconv.Unquote(im.Path.Value)
-		name := ""
-		if im.Name != nil {
-			name = im.Name.Name
-		}
-		if name == "_" {
-			c.Pkg.ForceImport(path)
-			continue
-		}
-		if name == "" {
-			pr := c.Pkg.Import(path)
-			name = pr.Types.Name()
-		}
-		c.imports[name] = path
+	if c.Decls == nil {
+		c.Decls = map[string]types.Type{}
 	}
-	// pass 0: declare all package-level type names that are referenced before declared? (prototype: in order)
-	var bodies []funcBody
-	// pre-declare type names in order of appearance within each GenDecl, InitType afterwards
-	for _, d := range f.Decls {
-		switch d := d.(type) {
-		case *ast.GenDecl:
-			switch d.Tok {
-			case token.IMPORT:
-			case token.TYPE:
-				c.typeDecl(d, true)
-			case token.VAR:
-				c.varDecl(d)
-			case token.CONST:
-				c.constDecl(d, true)
+	imps := make([]map[string]string, len(files))
+	for i, f := range files {
+		if f.Name != "" || len(files) > 1 {
+			if _, err := c.Pkg.SetCurFile(f.Name, true); err != nil {
+				feError("SetCurFile: %v", err)
 			}
-		case *ast.FuncDecl:
-			bodies = append(bodies, c.funcDecl(d))
+			c.curFile = f.Name
+		}
+		m := map[string]string{}
+		for _, im := range f.AST.Imports {
+			path, _ := strconv.Unquote(im.Path.Value)
+			name := ""
+			if im.Name != nil {
+				name = im.Name.Name
+			}
+			if name == "_" {
+				c.Pkg.ForceImport(path)
+				continue
+			}
+			if name == "." {
+				unsupported("dot import")
+			}
+			if name == "" {
+				pr := c.Pkg.Import(path)
+				name = pr.Types.Name()
+			}
+			m[name] = path
+		}
+		imps[i] = m
+	}
+	each := func(tok token.Token, fn func(d *ast.GenDecl)) {
+		for i, f := range files {
+			for _, d := range f.AST.Decls {
+				if g, ok := d.(*ast.GenDecl); ok && g.Tok == tok {
+					c.setFile(f.Name, imps[i])
+					fn(g)
+				}
+			}
+		}
+	}
+	// constants that do not mention a package-level variable come first (types and signatures may use them);
+	// the others are compiled with the variables, in source order
+	pkgVars := map[string]bool{}
+	for _, f := range files {
+		for _, d := range f.AST.Decls {
+			if g, ok := d.(*ast.GenDecl); ok && g.Tok == token.VAR {
+				for _, sp := range g.Specs {
+					for _, n := range sp.(*ast.ValueSpec).Names {
+						pkgVars[n.Name] = true
+					}
+				}
+			}
+		}
+	}
+	late := map[*ast.GenDecl]bool{}
+	each(token.CONST, func(g *ast.GenDecl) {
+		ast.Inspect(g, func(n ast.Node) bool {
+			if id, ok := n.(*ast.Ident); ok && pkgVars[id.Name] {
+				late[g] = true
+			}
+			return true
+		})
+	})
+	each(token.CONST, func(g *ast.GenDecl) {
+		if !late[g] {
+			c.constDecl(g, true)
+		}
+	})
+	// type names first (all files), bodies afterwards: forward references among types work
+	var allTypes []*typePend
+	each(token.TYPE, func(g *ast.GenDecl) { allTypes = append(allTypes, c.typeDeclStart(g, true, imps)...) })
+	for _, p := range allTypes {
+		c.setFile(p.file, p.imps)
+		c.typeDeclFinish(p)
+	}
+	for _, p := range allTypes {
+		if p.last {
+			p.defs.Complete()
+		}
+	}
+	var bodies []funcBody
+	for i, f := range files {
+		for _, d := range f.AST.Decls {
+			if fd, ok := d.(*ast.FuncDecl); ok {
+				c.setFile(f.Name, imps[i])
+				b := c.funcDecl(fd)
+				b.file, b.imps = f.Name, imps[i]
+				bodies = append(bodies, b)
+			}
+		}
+	}
+	for i, f := range files {
+		for _, d := range f.AST.Decls {
+			if g, ok := d.(*ast.GenDecl); ok && (g.Tok == token.VAR || late[g]) {
+				c.setFile(f.Name, imps[i])
+				if g.Tok == token.VAR {
+					c.varDecl(g)
+				} else {
+					c.constDecl(g, true)
+				}
+			}
 		}
 	}
 	for _, b := range bodies {
 		if b.decl.Body == nil {
 			continue
 		}
+		c.setFile(b.file, b.imps)
 		c.funcBody(b)
 	}
 }
@@ -356,7 +492,7 @@ func (c *Compiler) toTParams(fl *ast.FieldList) ([]*types.TypeParam, map[string]
 	var pends []pend
 	for _, f := range fl.List {
 		for _, n := range f.Names {
-			tp := types.NewTypeParam(types.NewTypeName(token.NoPos, c.Pkg.Types, n.Name, nil), nil)
+			tp := types.NewTypeParam(types.NewTypeName(token.NoPos, c.Pkg.Types, n.Name, nil), types.Universe.Lookup("any").Type())
 			m[n.Name] = tp
 			list = append(list, tp)
 			pends = append(pends, pend{tp, f.Type})
@@ -389,76 +525,118 @@ func (c *Compiler) toSig(recv *types.Var, ft *ast.FuncType, recvTP []*types.Type
 
 // ---------------------------------------------------------------------------- decls
 
-func (c *Compiler) typeDecl(d *ast.GenDecl, pkgLevel bool) {
+type typePend struct {
+	decl *gogen.TypeDecl
+	spec *ast.TypeSpec
+	defs *gogen.TypeDefs
+	last bool
+	file string
+	imps map[string]string
+}
+
+func (c *Compiler) typeDeclStart(d *ast.GenDecl, pkgLevel bool, _ any) []*typePend {
 	var defs *gogen.TypeDefs
 	if pkgLevel {
 		defs = c.Pkg.NewTypeDefs()
 	} else {
 		defs = c.cb.NewTypeDefs()
 	}
-	c.op("NewTypeDefs")
-	type pend struct {
-		decl *gogen.TypeDecl
-		spec *ast.TypeSpec
+	c.do("NewTypeDefs", 0, func() {})
+	var pends []*typePend
+	for _, sp := range d.Specs {
+		ts := sp.(*ast.TypeSpec)
+		pends = append(pends, &typePend{spec: ts, defs: defs, file: c.curFile, imps: c.imports})
 	}
-	var pends []pend
-	for _, s := range d.Specs {
-		ts := s.(*ast.TypeSpec)
-		if ts.Assign != 0 {
-			defs.AliasType(ts.Name.Name, c.toType(ts.Type))
-			c.op("AliasType")
+	// non-alias names are declared first so that later specs (and alias targets) may refer to them
+	for _, p := range pends {
+		if p.spec.Assign == 0 {
+			p := p
+			c.do("NewType", 0, func() { p.decl = p.defs.NewType(p.spec.Name.Name) })
+		}
+	}
+	if len(pends) > 0 {
+		pends[len(pends)-1].last = true
+	}
+	return pends
+}
+
+func (c *Compiler) typeDeclFinish(p *typePend) {
+	if p.spec.Assign != 0 {
+		if p.spec.TypeParams != nil {
+			unsupported("generic alias")
+		}
+		t := c.toType(p.spec.Type)
+		c.do("AliasType", 0, func() { p.defs.AliasType(p.spec.Name.Name, t) })
+		return
+	}
+	tps, m := c.toTParams(p.spec.TypeParams)
+	if m != nil {
+		c.tparams = append(c.tparams, m)
+	}
+	t := c.toType(p.spec.Type)
+	c.do("InitType", 0, func() { p.decl.InitType(c.Pkg, t, tps...) })
+	if m != nil {
+		c.tparams = c.tparams[:len(c.tparams)-1]
+	}
+}
+
+func (c *Compiler) typeDecl(d *ast.GenDecl, pkgLevel bool) {
+	pends := c.typeDeclStart(d, pkgLevel, nil)
+	for _, p := range pends {
+		c.typeDeclFinish(p)
+	}
+	if len(pends) > 0 {
+		pends[0].defs.Complete()
+	}
+}
+
+func (c *Compiler) declKey(name string) string { return c.funcKey + "/" + name }
+
+func (c *Compiler) recordDecls(names []string) {
+	for _, n := range names {
+		if n == "_" {
 			continue
 		}
-		pends = append(pends, pend{defs.NewType(ts.Name.Name), ts})
-		c.op("NewType")
-	}
-	for _, p := range pends {
-		tps, m := c.toTParams(p.spec.TypeParams)
-		if m != nil {
-			c.tparams = append(c.tparams, m)
-		}
-		p.decl.InitType(c.Pkg, c.toType(p.spec.Type), tps...)
-		c.op("InitType")
-		if m != nil {
-			c.tparams = c.tparams[:len(c.tparams)-1]
+		if o := c.cb.Scope().Lookup(n); o != nil {
+			c.Decls[c.declKey(n)] = o.Type()
 		}
 	}
-	defs.Complete()
 }
 
 func (c *Compiler) varDecl(d *ast.GenDecl) {
-	for _, s := range d.Specs {
-		vs := s.(*ast.ValueSpec)
+	for _, sp := range d.Specs {
+		vs := sp.(*ast.ValueSpec)
 		var typ types.Type
 		if vs.Type != nil {
 			typ = c.toType(vs.Type)
 		}
 		names := identNames(vs.Names)
 		if len(vs.Values) == 0 {
-			c.cb.NewVar(typ, names...)
-			c.op("NewVar")
+			c.do("NewVar", 0, func() { c.cb.NewVar(typ, names...) })
+			c.recordDecls(names)
 			continue
 		}
-		c.cb.NewVarStart(typ, names...)
-		c.op("NewVarStart")
+		c.do("NewVarStart", 0, func() { c.cb.NewVarStart(typ, names...) })
+		c.inInit++
 		for _, v := range vs.Values {
 			c.exprN(v, len(names), len(vs.Values))
 		}
-		c.cb.EndInit(len(vs.Values))
-		c.op("EndInit")
+		c.inInit--
+		c.do("EndInit", -len(vs.Values), func() { c.cb.EndInit(len(vs.Values)) })
+		c.recordDecls(names)
 	}
 }
 
 func (c *Compiler) constDecl(d *ast.GenDecl, pkgLevel bool) {
-	defs := c.Pkg.NewConstDefs(c.cb.Scope())
-	c.op("NewConstDefs")
+	var defs *gogen.ConstDefs
+	c.do("NewConstDefs", 0, func() { defs = c.Pkg.NewConstDefs(c.cb.Scope()) })
 	var last *ast.ValueSpec
-	for i, s := range d.Specs {
-		vs := s.(*ast.ValueSpec)
+	for i, sp := range d.Specs {
+		vs := sp.(*ast.ValueSpec)
 		names := identNames(vs.Names)
 		if len(vs.Values) == 0 && last != nil {
-			defs.Next(i, token.NoPos, names...)
-			c.op("ConstNext")
+			c.do("ConstNext", 0, func() { defs.Next(i, token.NoPos, names...) })
+			c.recordDecls(names)
 			continue
 		}
 		last = vs
@@ -467,13 +645,17 @@ func (c *Compiler) constDecl(d *ast.GenDecl, pkgLevel bool) {
 			typ = c.toType(vs.Type)
 		}
 		vals := vs.Values
-		defs.New(func(cb *gogen.CodeBuilder) int {
-			for _, v := range vals {
-				c.expr(v)
-			}
-			return len(vals)
-		}, i, token.NoPos, typ, names...)
-		c.op("ConstNew")
+		c.do("ConstNew", 0, func() {
+			defs.New(func(cb *gogen.CodeBuilder) int {
+				c.inInit++
+				for _, v := range vals {
+					c.expr(v)
+				}
+				c.inInit--
+				return len(vals)
+			}, i, token.NoPos, typ, names...)
+		})
+		c.recordDecls(names)
 	}
 }
 
@@ -487,38 +669,18 @@ func identNames(ids []*ast.Ident) []string {
 
 func (c *Compiler) funcDecl(d *ast.FuncDecl) funcBody {
 	var recv *types.Var
-	var recvTP []*types.TypeParam
-	var tpm map[string]*types.TypeParam
 	if d.Recv != nil && len(d.Recv.List) == 1 {
 		f := d.Recv.List[0]
 		rt := f.Type
 		star := false
-		if s, ok := rt.(*ast.StarExpr); ok {
-			rt, star = s.X, true
+		if st, ok := rt.(*ast.StarExpr); ok {
+			rt, star = st.X, true
 		}
-		var base types.Type
-		switch x := rt.(type) {
+		switch unparen(rt).(type) {
 		case *ast.IndexExpr, *ast.IndexListExpr:
-			var bx ast.Expr
-			var idx []ast.Expr
-			if ie, ok := x.(*ast.IndexExpr); ok {
-				bx, idx = ie.X, []ast.Expr{ie.Index}
-			} else {
-				il := x.(*ast.IndexListExpr)
-				bx, idx = il.X, il.Indices
-			}
-			named := c.toType(bx).(*types.Named)
-			tpm = map[string]*types.TypeParam{}
-			for i, ix := range idx {
-				name := ix.(*ast.Ident).Name
-				tp := types.NewTypeParam(types.NewTypeName(token.NoPos, c.Pkg.Types, name, nil), named.TypeParams().At(i).Constraint())
-				tpm[name] = tp
-				recvTP = append(recvTP, tp)
-			}
-			base = named
-		default:
-			base = c.toType(rt)
+			unsupported("method on generic receiver")
 		}
+		base := c.toType(rt)
 		if star {
 			base = types.NewPointer(base)
 		}
@@ -528,33 +690,22 @@ func (c *Compiler) funcDecl(d *ast.FuncDecl) funcBody {
 		}
 		recv = c.Pkg.NewParam(token.NoPos, name, base, false)
 	}
-	if tpm != nil {
-		c.tparams = append(c.tparams, tpm)
-	}
-	sig := c.toSig(recv, d.Type, recvTP)
-	if tpm != nil {
-		c.tparams = c.tparams[:len(c.tparams)-1]
-	}
+	sig := c.toSig(recv, d.Type, nil)
 	if d.Body == nil {
-		fn := c.Pkg.NewFuncDecl(token.NoPos, d.Name.Name, sig)
-		c.op("NewFuncDecl")
+		var fn *gogen.Func
+		c.do("NewFuncDecl", 0, func() { fn = c.Pkg.NewFuncDecl(token.NoPos, d.Name.Name, sig) })
 		return funcBody{fn: fn, decl: d}
 	}
-	fn, err := c.Pkg.NewFuncWith(token.NoPos, d.Name.Name, sig, nil)
-	c.op("NewFuncWith")
+	var fn *gogen.Func
+	var err error
+	c.do("NewFuncWith", 0, func() { fn, err = c.Pkg.NewFuncWith(token.NoPos, d.Name.Name, sig, nil) })
 	if err != nil {
 		panic(err)
 	}
-	// body type params
-	_, m := c.toTParamsLookup(sig, d.Type.TypeParams)
-	if tpm != nil {
-		if m == nil {
-			m = map[string]*types.TypeParam{}
-		}
-		for k, v := range tpm {
-			m[k] = v
-		}
+	if recv == nil && d.Name.Name != "_" && d.Name.Name != "init" {
+		c.Decls["/"+d.Name.Name] = fn.Type()
 	}
+	_, m := c.toTParamsLookup(sig, d.Type.TypeParams)
 	return funcBody{fn: fn, decl: d, tps: m}
 }
 
@@ -577,18 +728,50 @@ func (c *Compiler) toTParamsLookup(sig *types.Signature, fl *ast.FieldList) ([]*
 	return list, m
 }
 
+func funcKeyOf(d *ast.FuncDecl) string {
+	if d.Recv != nil && len(d.Recv.List) == 1 {
+		return "(" + types.ExprString(d.Recv.List[0].Type) + ")." + d.Name.Name
+	}
+	return d.Name.Name
+}
+
+func (c *Compiler) recordParams(sig *types.Signature) {
+	rec := func(t *types.Tuple) {
+		for i := 0; i < t.Len(); i++ {
+			if n := t.At(i).Name(); n != "" && n != "_" {
+				if o := c.cb.Scope().Lookup(n); o != nil {
+					c.Decls[c.declKey(n)] = o.Type()
+				}
+			}
+		}
+	}
+	rec(sig.Params())
+	rec(sig.Results())
+	if r := sig.Recv(); r != nil && r.Name() != "" && r.Name() != "_" {
+		if o := c.cb.Scope().Lookup(r.Name()); o != nil {
+			c.Decls[c.declKey(r.Name())] = o.Type()
+		}
+	}
+}
+
 func (c *Compiler) funcBody(b funcBody) {
 	if b.tps != nil {
 		c.tparams = append(c.tparams, b.tps)
 		defer func() { c.tparams = c.tparams[:len(c.tparams)-1] }()
 	}
-	c.cb = b.fn.BodyStart(c.Pkg)
-	c.op("BodyStart")
+	oldKey := c.funcKey
+	c.funcKey = funcKeyOf(b.decl)
+	defer func() { c.funcKey = oldKey }()
+	sc0, fn0 := c.cb.Scope(), c.cb.Func()
+	c.do("BodyStart", 0, func() { c.cb = b.fn.BodyStart(c.Pkg) })
+	c.recordParams(b.fn.Type().(*types.Signature))
 	c.withLabels(b.decl.Body, func() {
 		c.stmts(b.decl.Body.List)
 	})
-	c.cb.End(b.decl)
-	c.op("End")
+	c.do("End", 0, func() { c.cb.End(b.decl) })
+	if c.cb.Scope() != sc0 || c.cb.Func() != fn0 {
+		panic(&Imbalance{"scope/func not restored after function body " + c.funcKey})
+	}
 }
 
 func (c *Compiler) withLabels(body *ast.BlockStmt, f func()) {
@@ -599,12 +782,13 @@ func (c *Compiler) withLabels(body *ast.BlockStmt, f func()) {
 		case *ast.FuncLit:
 			return false
 		case *ast.LabeledStmt:
-			if l := c.cb.NewLabel(token.NoPos, token.NoPos, n.Label.Name); l != nil {
-				if _, dup := c.labels[n.Label.Name]; !dup {
-					c.labels[n.Label.Name] = l
+			c.do("NewLabel", 0, func() {
+				if l := c.cb.NewLabel(n.Label.Pos(), n.Label.End(), n.Label.Name); l != nil {
+					if _, dup := c.labels[n.Label.Name]; !dup {
+						c.labels[n.Label.Name] = l
+					}
 				}
-			}
-			c.op("NewLabel")
+			})
 		}
 		return true
 	})
@@ -616,18 +800,81 @@ func (c *Compiler) withLabels(body *ast.BlockStmt, f func()) {
 
 type Imbalance struct{ Msg string }
 
+func (e *Imbalance) Error() string { return "imbalance: " + e.Msg }
+
+type snapshot struct {
+	n  int
+	sc *types.Scope
+	fn *gogen.Func
+	vb bool
+}
+
+func (c *Compiler) snap() snapshot {
+	return snapshot{c.cb.InternalStack().Len(), c.cb.Scope(), c.cb.Func(), c.cb.InVBlock()}
+}
+
+func (c *Compiler) checkRestored(s0 snapshot, what string) {
+	s1 := c.snap()
+	if s1.n != s0.n {
+		panic(&Imbalance{fmt.Sprintf("operand stack %d -> %d across %s", s0.n, s1.n, what)})
+	}
+	if s1.sc != s0.sc {
+		panic(&Imbalance{"scope not restored across " + what})
+	}
+	if s1.fn != s0.fn {
+		panic(&Imbalance{"current function not restored across " + what})
+	}
+	if s1.vb != s0.vb {
+		panic(&Imbalance{"vblock flag not restored across " + what})
+	}
+}
+
 func (c *Compiler) stmts(list []ast.Stmt) {
 	for _, s := range list {
-		n0 := c.cb.InternalStack().Len()
-		sc0, fn0, vb0 := c.cb.Scope(), c.cb.Func(), c.cb.InVBlock()
+		s0 := c.snap()
+		if c.Recover {
+			c.stmtRecover(s)
+			if c.cb.InternalStack().Len() != s0.n {
+				panic(&Imbalance{fmt.Sprintf("operand stack %d -> %d after recovery from a reported error in %T", s0.n, c.cb.InternalStack().Len(), s)})
+			}
+			continue
+		}
 		c.stmt(s)
-		if n1 := c.cb.InternalStack().Len(); n1 != n0 {
-			panic(&Imbalance{fmt.Sprintf("stack %d -> %d across %T", n0, n1, s)})
-		}
-		if c.cb.Scope() != sc0 || c.cb.Func() != fn0 || c.cb.InVBlock() != vb0 {
-			panic(&Imbalance{fmt.Sprintf("scope/func/vblock changed across %T", s)})
-		}
+		c.checkRestored(s0, fmt.Sprintf("%T", s))
 	}
+}
+
+// stmtRecover compiles one statement; if the builder reports an error inside it the front end recovers the way a
+// compiler does (ResetInit inside an initialiser, ResetStmt otherwise) and carries on with the next statement.
+func (c *Compiler) stmtRecover(s ast.Stmt) {
+	switch s.(type) {
+	case *ast.ExprStmt, *ast.AssignStmt, *ast.IncDecStmt, *ast.SendStmt, *ast.ReturnStmt, *ast.GoStmt, *ast.DeferStmt, *ast.DeclStmt:
+	default:
+		c.stmt(s) // compound statements recover inside their own statement lists
+		return
+	}
+	init0 := c.inInit
+	defer func() {
+		if e := recover(); e != nil {
+			switch e.(type) {
+			case *Unsupported, *FEError, *Imbalance, runtimeError:
+				panic(e)
+			}
+			c.Reported = append(c.Reported, fmt.Sprint(e))
+			if c.inInit > init0 {
+				c.inInit = init0
+				c.cb.ResetInit()
+			} else {
+				c.cb.ResetStmt()
+			}
+		}
+	}()
+	c.stmt(s)
+}
+
+type runtimeError interface {
+	error
+	RuntimeError()
 }
 
 func (c *Compiler) label(id *ast.Ident) *gogen.Label {
@@ -647,8 +894,7 @@ func (c *Compiler) stmt(s ast.Stmt) {
 	case *ast.EmptyStmt:
 	case *ast.ExprStmt:
 		c.expr(s.X)
-		cb.EndStmt()
-		c.op("EndStmt")
+		c.do("EndStmt", -1, func() { cb.EndStmt() })
 	case *ast.DeclStmt:
 		d := s.Decl.(*ast.GenDecl)
 		switch d.Tok {
@@ -663,122 +909,102 @@ func (c *Compiler) stmt(s ast.Stmt) {
 		c.assign(s)
 	case *ast.IncDecStmt:
 		c.lhs(s.X)
-		cb.IncDec(s.Tok)
-		c.op("IncDec")
+		c.do("IncDec", -1, func() { cb.IncDec(s.Tok, s) })
 	case *ast.GoStmt:
 		c.expr(s.Call)
-		cb.Go()
-		c.op("Go")
+		c.do("Go", -1, func() { cb.Go() })
 	case *ast.DeferStmt:
 		c.expr(s.Call)
-		cb.Defer()
-		c.op("Defer")
+		c.do("Defer", -1, func() { cb.Defer() })
 	case *ast.SendStmt:
 		c.expr(s.Chan)
 		c.expr(s.Value)
-		cb.Send()
-		c.op("Send")
+		c.do("Send", -2, func() { cb.Send() })
 	case *ast.ReturnStmt:
 		for _, r := range s.Results {
 			c.expr(r)
 		}
-		cb.Return(len(s.Results))
-		c.op("Return")
+		c.do("Return", -len(s.Results), func() { cb.Return(len(s.Results), s) })
 	case *ast.BranchStmt:
-		switch s.Tok {
-		case token.BREAK:
-			cb.Break(c.label(s.Label))
-		case token.CONTINUE:
-			cb.Continue(c.label(s.Label))
-		case token.GOTO:
-			cb.Goto(c.label(s.Label))
-		case token.FALLTHROUGH:
-			cb.Fallthrough()
-		}
-		c.op("Branch")
+		l := c.label(s.Label)
+		c.do("Branch"+s.Tok.String(), 0, func() {
+			switch s.Tok {
+			case token.BREAK:
+				cb.Break(l)
+			case token.CONTINUE:
+				cb.Continue(l)
+			case token.GOTO:
+				cb.Goto(l)
+			case token.FALLTHROUGH:
+				cb.Fallthrough()
+			}
+		})
 	case *ast.LabeledStmt:
-		cb.Label(c.label(s.Label))
-		c.op("Label")
+		l := c.label(s.Label)
+		c.do("Label", 0, func() { cb.Label(l) })
 		c.stmt(s.Stmt)
 	case *ast.BlockStmt:
-		cb.Block()
-		c.op("Block")
+		c.do("Block", 0, func() { cb.Block() })
 		c.stmts(s.List)
-		cb.End()
-		c.op("End")
+		c.do("End", 0, func() { cb.End() })
 	case *ast.IfStmt:
 		c.ifStmt(s)
 	case *ast.ForStmt:
-		cb.For()
-		c.op("For")
+		c.do("For", 0, func() { cb.For() })
 		if s.Init != nil {
 			c.stmt(s.Init)
 		}
 		if s.Cond != nil {
 			c.expr(s.Cond)
 		} else {
-			cb.None()
+			c.do("None", 1, func() { cb.None() })
 		}
-		cb.Then()
-		c.op("Then")
+		c.do("Then", -1, func() { cb.Then() })
 		c.stmts(s.Body.List)
 		if s.Post != nil {
-			cb.Post()
-			c.op("Post")
+			c.do("Post", 0, func() { cb.Post() })
 			c.stmt(s.Post)
 		}
-		cb.End()
-		c.op("End")
+		c.do("End", 0, func() { cb.End() })
 	case *ast.RangeStmt:
 		c.rangeStmt(s)
 	case *ast.SwitchStmt:
-		cb.Switch()
-		c.op("Switch")
+		c.do("Switch", 0, func() { cb.Switch() })
 		if s.Init != nil {
 			c.stmt(s.Init)
 		}
 		if s.Tag != nil {
 			c.expr(s.Tag)
 		} else {
-			cb.None()
+			c.do("None", 1, func() { cb.None() })
 		}
-		cb.Then()
-		c.op("Then")
+		c.do("Then", NoArity, func() { cb.Then() })
 		for _, cl := range s.Body.List {
 			cc := cl.(*ast.CaseClause)
-			cb.Case()
-			c.op("Case")
+			c.do("Case", 0, func() { cb.Case() })
 			for _, e := range cc.List {
 				c.expr(e)
 			}
-			cb.Then()
-			c.op("Then")
+			c.do("Then", -len(cc.List), func() { cb.Then() })
 			c.stmts(cc.Body)
-			cb.End()
-			c.op("End")
+			c.do("End", 0, func() { cb.End() })
 		}
-		cb.End()
-		c.op("End")
+		c.do("End", NoArity, func() { cb.End() })
 	case *ast.TypeSwitchStmt:
 		c.typeSwitch(s)
 	case *ast.SelectStmt:
-		cb.Select()
-		c.op("Select")
+		c.do("Select", 0, func() { cb.Select() })
 		for _, cl := range s.Body.List {
 			cc := cl.(*ast.CommClause)
-			cb.CommCase()
-			c.op("CommCase")
+			c.do("CommCase", 0, func() { cb.CommCase() })
 			if cc.Comm != nil {
 				c.stmt(cc.Comm)
 			}
-			cb.Then()
-			c.op("Then")
+			c.do("Then", 0, func() { cb.Then() })
 			c.stmts(cc.Body)
-			cb.End()
-			c.op("End")
+			c.do("End", 0, func() { cb.End() })
 		}
-		cb.End()
-		c.op("End")
+		c.do("End", 0, func() { cb.End() })
 	default:
 		unsupported("stmt %T", s)
 	}
@@ -786,18 +1012,15 @@ func (c *Compiler) stmt(s ast.Stmt) {
 
 func (c *Compiler) ifStmt(s *ast.IfStmt) {
 	cb := c.cb
-	cb.If()
-	c.op("If")
+	c.do("If", 0, func() { cb.If() })
 	if s.Init != nil {
 		c.stmt(s.Init)
 	}
 	c.expr(s.Cond)
-	cb.Then()
-	c.op("Then")
+	c.do("Then", -1, func() { cb.Then() })
 	c.stmts(s.Body.List)
 	if s.Else != nil {
-		cb.Else()
-		c.op("Else")
+		c.do("Else", 0, func() { cb.Else() })
 		switch e := s.Else.(type) {
 		case *ast.BlockStmt:
 			c.stmts(e.List)
@@ -805,26 +1028,23 @@ func (c *Compiler) ifStmt(s *ast.IfStmt) {
 			c.ifStmt(e)
 		}
 	}
-	cb.End()
-	c.op("End")
+	c.do("End", 0, func() { cb.End() })
 }
 
 func (c *Compiler) rangeStmt(s *ast.RangeStmt) {
 	cb := c.cb
+	var names []string
 	if s.Tok == token.DEFINE {
-		var names []string
 		if s.Key != nil {
 			names = append(names, s.Key.(*ast.Ident).Name)
 		}
 		if s.Value != nil {
 			names = append(names, s.Value.(*ast.Ident).Name)
 		}
-		cb.ForRange(names...)
-		c.op("ForRange")
+		c.do("ForRange", 0, func() { cb.ForRange(names...) })
 		c.expr(s.X)
 	} else {
-		cb.ForRange()
-		c.op("ForRange")
+		c.do("ForRange", 0, func() { cb.ForRange() })
 		if s.Key != nil {
 			c.lhs(s.Key)
 		}
@@ -833,11 +1053,10 @@ func (c *Compiler) rangeStmt(s *ast.RangeStmt) {
 		}
 		c.expr(s.X)
 	}
-	cb.RangeAssignThen(token.NoPos)
-	c.op("RangeAssignThen")
+	c.do("RangeAssignThen", NoArity, func() { cb.RangeAssignThen(token.NoPos) })
+	c.recordDecls(names)
 	c.stmts(s.Body.List)
-	cb.End()
-	c.op("End")
+	c.do("End", NoArity, func() { cb.End() })
 }
 
 func (c *Compiler) typeSwitch(s *ast.TypeSwitchStmt) {
@@ -851,33 +1070,33 @@ func (c *Compiler) typeSwitch(s *ast.TypeSwitchStmt) {
 	case *ast.ExprStmt:
 		x = a.X.(*ast.TypeAssertExpr).X
 	}
-	cb.TypeSwitch(name)
-	c.op("TypeSwitch")
+	c.do("TypeSwitch", 0, func() { cb.TypeSwitch(name) })
 	if s.Init != nil {
 		c.stmt(s.Init)
 	}
 	c.expr(x)
-	cb.TypeAssertThen()
-	c.op("TypeAssertThen")
-	for _, cl := range s.Body.List {
+	c.do("TypeAssertThen", NoArity, func() { cb.TypeAssertThen() })
+	for ci, cl := range s.Body.List {
 		cc := cl.(*ast.CaseClause)
-		cb.TypeCase()
-		c.op("TypeCase")
+		c.do("TypeCase", 0, func() { cb.TypeCase() })
 		for _, e := range cc.List {
 			if id, ok := e.(*ast.Ident); ok && id.Name == "nil" && c.isUniverse("nil") {
-				cb.Val(nil)
+				c.do("Val", 1, func() { cb.Val(nil) })
 			} else {
-				cb.Typ(c.toType(e))
+				t := c.toType(e)
+				c.do("Typ", 1, func() { cb.Typ(t) })
 			}
 		}
-		cb.Then()
-		c.op("Then")
+		c.do("Then", -len(cc.List), func() { cb.Then() })
+		if name != "" && name != "_" {
+			if o := c.cb.Scope().Lookup(name); o != nil {
+				c.Decls[fmt.Sprintf("%s#case%d", c.declKey(name), ci)] = o.Type()
+			}
+		}
 		c.stmts(cc.Body)
-		cb.End()
-		c.op("End")
+		c.do("End", 0, func() { cb.End() })
 	}
-	cb.End()
-	c.op("End")
+	c.do("End", NoArity, func() { cb.End() })
 }
 
 func (c *Compiler) isUniverse(name string) bool {
@@ -889,13 +1108,15 @@ func (c *Compiler) assign(s *ast.AssignStmt) {
 	cb := c.cb
 	switch s.Tok {
 	case token.DEFINE:
-		cb.DefineVarStart(token.NoPos, identNamesExpr(s.Lhs)...)
-		c.op("DefineVarStart")
+		names := identNamesExpr(s.Lhs)
+		c.do("DefineVarStart", 0, func() { cb.DefineVarStart(s.Pos(), names...) })
+		c.inInit++
 		for _, r := range s.Rhs {
 			c.exprN(r, len(s.Lhs), len(s.Rhs))
 		}
-		cb.EndInit(len(s.Rhs))
-		c.op("EndInit")
+		c.inInit--
+		c.do("EndInit", -len(s.Rhs), func() { cb.EndInit(len(s.Rhs)) })
+		c.recordDecls(names)
 	case token.ASSIGN:
 		for _, l := range s.Lhs {
 			c.lhs(l)
@@ -903,13 +1124,11 @@ func (c *Compiler) assign(s *ast.AssignStmt) {
 		for _, r := range s.Rhs {
 			c.exprN(r, len(s.Lhs), len(s.Rhs))
 		}
-		cb.AssignWith(len(s.Lhs), len(s.Rhs))
-		c.op("AssignWith")
+		c.do("AssignWith", -(len(s.Lhs) + len(s.Rhs)), func() { cb.AssignWith(len(s.Lhs), len(s.Rhs), s) })
 	default: // op-assign
 		c.lhs(s.Lhs[0])
 		c.expr(s.Rhs[0])
-		cb.AssignOp(s.Tok)
-		c.op("AssignOp")
+		c.do("AssignOp", -2, func() { cb.AssignOp(s.Tok, s) })
 	}
 }
 
@@ -927,43 +1146,54 @@ func identNamesExpr(es []ast.Expr) []string {
 
 // lhs pushes an assignment target.
 func (c *Compiler) lhs(e ast.Expr) {
+	n0 := c.cb.InternalStack().Len()
+	c.lhs2(e)
+	if n1 := c.cb.InternalStack().Len(); n1 != n0+1 {
+		panic(&Imbalance{fmt.Sprintf("operand stack %d -> %d across assignment target %T", n0, n1, e)})
+	}
+	if c.Recs != nil {
+		el := c.cb.Get(-1)
+		c.Recs[e] = Rec{Type: el.Type, CVal: el.CVal, Ref: true}
+	}
+}
+
+func (c *Compiler) lhs2(e ast.Expr) {
 	cb := c.cb
 	switch e := e.(type) {
 	case *ast.ParenExpr:
-		c.lhs(e.X)
+		c.lhs2(e.X)
 	case *ast.Ident:
 		if e.Name == "_" {
-			cb.VarRef(nil)
-			c.op("VarRef_")
+			c.do("VarRef", 1, func() { cb.VarRef(nil) })
 			return
 		}
 		o := c.lookup(e.Name)
 		if o == nil {
 			feError("undefined: %s", e.Name)
 		}
-		cb.VarRef(o)
-		c.op("VarRef")
+		c.do("VarRef", 1, func() { cb.VarRef(o, e) })
 	case *ast.IndexExpr:
 		c.expr(e.X)
 		c.expr(e.Index)
-		cb.IndexRef(1)
-		c.op("IndexRef")
+		c.do("IndexRef", -1, func() { cb.IndexRef(1, e) })
 	case *ast.SelectorExpr:
 		if pr, ok := c.pkgRef(e.X); ok {
-			cb.VarRef(pr.Ref(e.Sel.Name))
-			c.op("VarRef")
+			c.usePkg(pr, e.Sel.Name)
+			c.do("VarRef", 1, func() { cb.VarRef(pr.Ref(e.Sel.Name), e) })
 			return
 		}
 		c.expr(e.X)
-		cb.MemberRef(e.Sel.Name)
-		c.op("MemberRef")
+		c.do("MemberRef", 0, func() { cb.MemberRef(e.Sel.Name, e) })
 	case *ast.StarExpr:
 		c.expr(e.X)
-		cb.ElemRef()
-		c.op("ElemRef")
+		c.do("ElemRef", 0, func() { cb.ElemRef(e) })
 	default:
 		feError("cannot assign to %T", e)
 	}
+}
+
+func (c *Compiler) usePkg(pr gogen.PkgRef, name string) {
+	c.PkgUses = append(c.PkgUses, PkgUse{File: c.curFile, Path: pr.Path(), Name: name})
 }
 
 // ---------------------------------------------------------------------------- expressions
@@ -971,25 +1201,22 @@ func (c *Compiler) lhs(e ast.Expr) {
 // exprN compiles a rhs expression knowing how many lhs values are expected (comma-ok forms).
 func (c *Compiler) exprN(e ast.Expr, nlhs, nrhs int) {
 	if nlhs == 2 && nrhs == 1 {
-		c.expr2(e, 2)
+		c.exprTop(e, 2)
 		return
 	}
 	c.expr(e)
 }
 
-func (c *Compiler) expr(e ast.Expr) {
-	n0 := c.cb.InternalStack().Len()
-	sc0, fn0 := c.cb.Scope(), c.cb.Func()
-	c.expr2(e, 0)
-	if n1 := c.cb.InternalStack().Len(); n1 != n0+1 {
-		panic(&Imbalance{fmt.Sprintf("stack %d -> %d across expr %T", n0, n1, e)})
-	}
-	if c.cb.Scope() != sc0 || c.cb.Func() != fn0 {
-		panic(&Imbalance{fmt.Sprintf("scope/func changed across expr %T", e)})
-	}
+func (c *Compiler) expr(e ast.Expr) { c.exprTop(e, 0) }
+
+func (c *Compiler) exprTop(e ast.Expr, lhs int) {
+	s0 := c.snap()
+	c.expr2(e, lhs)
+	s0.n++
+	c.checkRestored(s0, fmt.Sprintf("expression %T", e))
 	if c.Recs != nil {
 		el := c.cb.Get(-1)
-		c.Recs[e] = Rec{el.Type, el.CVal}
+		c.Recs[unparen(e)] = Rec{Type: el.Type, CVal: el.CVal, CommaOk: lhs == 2 && isCommaOkForm(e)}
 	}
 }
 
@@ -1003,8 +1230,7 @@ func (c *Compiler) expr2(e ast.Expr, lhs int) {
 	case *ast.ParenExpr:
 		c.expr2(e.X, lhs)
 	case *ast.BasicLit:
-		cb.Val(e, e)
-		c.op("Val")
+		c.do("Val", 1, func() { cb.Val(e, e) })
 	case *ast.Ident:
 		c.ident(e)
 	case *ast.UnaryExpr:
@@ -1014,22 +1240,21 @@ func (c *Compiler) expr2(e ast.Expr, lhs int) {
 			} else {
 				c.lhs(e.X)
 			}
-			cb.UnaryOp(token.AND, e)
-			c.op("UnaryOp&")
+			c.do("UnaryOp&", 0, func() { cb.UnaryOp(token.AND, e) })
 			return
 		}
 		c.expr(e.X)
-		if e.Op == token.ARROW && twoValue == 2 {
-			cb.UnaryOpEx(token.ARROW, 2, e)
-		} else {
-			cb.UnaryOp(e.Op, e)
-		}
-		c.op("UnaryOp" + e.Op.String())
+		c.do("UnaryOp"+e.Op.String(), 0, func() {
+			if e.Op == token.ARROW && twoValue == 2 {
+				cb.UnaryOpEx(token.ARROW, 2, e)
+			} else {
+				cb.UnaryOp(e.Op, e)
+			}
+		})
 	case *ast.BinaryExpr:
 		c.expr(e.X)
 		c.expr(e.Y)
-		cb.BinaryOp(e.Op, e)
-		c.op("BinaryOp" + e.Op.String())
+		c.do("BinaryOp"+e.Op.String(), -1, func() { cb.BinaryOp(e.Op, e) })
 	case *ast.CallExpr:
 		c.call(e, twoValue)
 	case *ast.SelectorExpr:
@@ -1038,77 +1263,110 @@ func (c *Compiler) expr2(e ast.Expr, lhs int) {
 			if o == nil {
 				feError("undefined: %s.%s", pr.Path(), e.Sel.Name)
 			}
-			cb.Val(o, e)
-			c.op("ValPkg")
+			c.usePkg(pr, e.Sel.Name)
+			if tn, ok := o.(*types.TypeName); ok {
+				c.do("Typ", 1, func() { cb.Typ(tn.Type(), e) })
+				return
+			}
+			c.do("Val", 1, func() { cb.Val(o, e) })
 			return
 		}
 		if c.isType(e.X) { // method expression
-			cb.Typ(c.toType(e.X))
+			t := c.toType(e.X)
+			c.do("Typ", 1, func() { cb.Typ(t, e.X) })
 		} else {
 			c.expr(e.X)
 		}
-		cb.MemberVal(e.Sel.Name, twoValue, e)
-		c.op("MemberVal")
+		c.do("MemberVal", 0, func() { cb.MemberVal(e.Sel.Name, twoValue, e) })
 	case *ast.IndexExpr:
 		if c.isType(e.Index) && !c.isType(e.X) { // explicit instantiation f[T]
 			c.expr(e.X)
-			cb.Typ(c.toType(e.Index))
-			cb.Index(1, 0, e)
-			c.op("IndexInst")
+			t := c.toType(e.Index)
+			c.do("Typ", 1, func() { cb.Typ(t, e.Index) })
+			c.do("Index", -1, func() { cb.Index(1, 0, e) })
+			return
+		}
+		if c.isType(e) {
+			t := c.toType(e)
+			c.do("Typ", 1, func() { cb.Typ(t, e) })
 			return
 		}
 		c.expr(e.X)
 		c.expr(e.Index)
-		cb.Index(1, twoValue, e)
-		c.op("Index")
+		c.do("Index", -1, func() { cb.Index(1, twoValue, e) })
 	case *ast.IndexListExpr:
+		if c.isType(e) {
+			t := c.toType(e)
+			c.do("Typ", 1, func() { cb.Typ(t, e) })
+			return
+		}
 		c.expr(e.X)
 		for _, ix := range e.Indices {
-			cb.Typ(c.toType(ix))
+			t := c.toType(ix)
+			c.do("Typ", 1, func() { cb.Typ(t, ix) })
 		}
-		cb.Index(len(e.Indices), 0, e)
-		c.op("IndexInst")
+		c.do("Index", -len(e.Indices), func() { cb.Index(len(e.Indices), 0, e) })
 	case *ast.SliceExpr:
 		c.expr(e.X)
 		for _, ix := range []ast.Expr{e.Low, e.High} {
 			if ix != nil {
 				c.expr(ix)
 			} else {
-				cb.None()
+				c.do("None", 1, func() { cb.None() })
 			}
 		}
+		d := -2
 		if e.Slice3 {
 			c.expr(e.Max)
+			d = -3
 		}
-		cb.Slice(e.Slice3, e)
-		c.op("Slice")
+		c.do("Slice", d, func() { cb.Slice(e.Slice3, e) })
 	case *ast.StarExpr:
+		if c.isType(e) {
+			t := c.toType(e)
+			c.do("Typ", 1, func() { cb.Typ(t, e) })
+			return
+		}
 		c.expr(e.X)
-		cb.Star(e)
-		c.op("Star")
+		c.do("Star", 0, func() { cb.Star(e) })
 	case *ast.TypeAssertExpr:
 		c.expr(e.X)
-		cb.TypeAssert(c.toType(e.Type), twoValue, e)
-		c.op("TypeAssert")
+		t := c.toType(e.Type)
+		c.do("TypeAssert", 0, func() { cb.TypeAssert(t, twoValue, e) })
 	case *ast.CompositeLit:
 		c.compositeLit(e, nil)
 	case *ast.FuncLit:
 		sig := c.toSig(nil, e.Type, nil)
-		fn := cb.NewClosureWith(sig)
-		c.op("NewClosure")
-		c.cb = fn.BodyStart(c.Pkg)
-		c.op("BodyStart")
+		var fn *gogen.Func
+		c.do("NewClosure", 0, func() { fn = cb.NewClosureWith(sig) })
+		c.do("BodyStart", 0, func() { c.cb = fn.BodyStart(c.Pkg) })
+		oldKey := c.funcKey
+		c.funcKey = fmt.Sprintf("%s.func@%d", oldKey, len(c.Decls))
+		c.recordParams(sig)
+		inInit := c.inInit
+		c.inInit = 0
 		c.withLabels(e.Body, func() { c.stmts(e.Body.List) })
-		c.cb.End(e)
-		c.op("End")
+		c.inInit = inInit
+		c.funcKey = oldKey
+		c.do("End", 1, func() { c.cb.End(e) })
 	default:
 		if c.isType(e) {
-			cb.Typ(c.toType(e))
-			c.op("Typ")
+			t := c.toType(e)
+			c.do("Typ", 1, func() { cb.Typ(t, e) })
 			return
 		}
 		unsupported("expr %T", e)
 	}
+}
+
+func isCommaOkForm(e ast.Expr) bool {
+	switch x := unparen(e).(type) {
+	case *ast.IndexExpr, *ast.TypeAssertExpr:
+		return true
+	case *ast.UnaryExpr:
+		return x.Op == token.ARROW
+	}
+	return false
 }
 
 func unparen(e ast.Expr) ast.Expr {
@@ -1124,8 +1382,7 @@ func unparen(e ast.Expr) ast.Expr {
 func (c *Compiler) ident(e *ast.Ident) {
 	cb := c.cb
 	if tp := c.lookupTParam(e.Name); tp != nil {
-		cb.Typ(tp, e)
-		c.op("Typ")
+		c.do("Typ", 1, func() { cb.Typ(tp, e) })
 		return
 	}
 	o := c.lookup(e.Name)
@@ -1134,13 +1391,12 @@ func (c *Compiler) ident(e *ast.Ident) {
 	}
 	switch o := o.(type) {
 	case *types.Nil:
-		cb.Val(nil, e)
+		c.do("Val", 1, func() { cb.Val(nil, e) })
 	case *types.TypeName:
-		cb.Typ(o.Type(), e)
+		c.do("Typ", 1, func() { cb.Typ(o.Type(), e) })
 	default:
-		cb.Val(o, e)
+		c.do("Val", 1, func() { cb.Val(o, e) })
 	}
-	c.op("ValIdent")
 }
 
 func (c *Compiler) call(e *ast.CallExpr, twoValue int) {
@@ -1151,28 +1407,49 @@ func (c *Compiler) call(e *ast.CallExpr, twoValue int) {
 	}
 	fun := unparen(e.Fun)
 	if c.isType(fun) {
-		cb.Typ(c.toType(fun), e.Fun)
-		c.op("Typ")
+		t := c.toType(fun)
+		c.do("Typ", 1, func() { cb.Typ(t, e.Fun) })
 	} else {
 		c.expr(fun)
 	}
 	for i, a := range e.Args {
-		if c.isType(a) && i == 0 { // new(T), make(T, ...)
-			cb.Typ(c.toType(a), a)
-			c.op("Typ")
+		if i == 0 && c.isType(a) { // new(T), make(T, ...), unsafe.Sizeof is a value
+			t := c.toType(a)
+			c.do("Typ", 1, func() { cb.Typ(t, a) })
 			continue
 		}
 		c.expr(a)
 	}
-	cb.CallWith(len(e.Args), twoValue, flags, e)
-	c.op("Call")
+	c.do("Call", -len(e.Args), func() { cb.CallWith(len(e.Args), twoValue, flags, e) })
 }
 
 func (c *Compiler) compositeLit(e *ast.CompositeLit, elided types.Type) {
 	cb := c.cb
 	var typ types.Type
 	if e.Type != nil {
-		typ = c.toType(e.Type)
+		if at, ok := e.Type.(*ast.ArrayType); ok {
+			if _, ok := at.Len.(*ast.Ellipsis); ok {
+				n := int64(0)
+				idx := int64(0)
+				for _, el := range e.Elts {
+					if kv, ok := el.(*ast.KeyValueExpr); ok {
+						if bl, ok := kv.Key.(*ast.BasicLit); ok {
+							idx, _ = strconv.ParseInt(bl.Value, 0, 64)
+						} else {
+							unsupported("[...]T literal with non-literal key")
+						}
+					}
+					idx++
+					if idx > n {
+						n = idx
+					}
+				}
+				typ = types.NewArray(c.toType(at.Elt), n)
+			}
+		}
+		if typ == nil {
+			typ = c.toType(e.Type)
+		}
 	} else {
 		typ = elided
 	}
@@ -1180,12 +1457,15 @@ func (c *Compiler) compositeLit(e *ast.CompositeLit, elided types.Type) {
 		feError("missing type in composite literal")
 	}
 	under := typ.Underlying()
+	if tp, ok := typ.(*types.TypeParam); ok {
+		_ = tp
+		unsupported("composite literal of type parameter type")
+	}
 	elemOf := func(t types.Type, v ast.Expr) {
 		if cl, ok := v.(*ast.CompositeLit); ok && cl.Type == nil {
 			if p, ok := t.Underlying().(*types.Pointer); ok {
 				c.compositeLit(cl, p.Elem())
-				cb.UnaryOp(token.AND)
-				c.op("UnaryOp&")
+				c.do("UnaryOp&", 0, func() { cb.UnaryOp(token.AND) })
 			} else {
 				c.compositeLit(cl, t)
 			}
@@ -1204,7 +1484,11 @@ func (c *Compiler) compositeLit(e *ast.CompositeLit, elided types.Type) {
 		if keyed {
 			for _, el := range e.Elts {
 				kv := el.(*ast.KeyValueExpr)
-				name := kv.Key.(*ast.Ident).Name
+				kid, ok := kv.Key.(*ast.Ident)
+				if !ok {
+					feError("invalid field name in struct literal")
+				}
+				name := kid.Name
 				idx := -1
 				for i := 0; i < u.NumFields(); i++ {
 					if u.Field(i).Name() == name {
@@ -1214,21 +1498,23 @@ func (c *Compiler) compositeLit(e *ast.CompositeLit, elided types.Type) {
 				if idx < 0 {
 					feError("unknown field %s", name)
 				}
-				cb.Val(idx)
+				c.do("Val", 1, func() { cb.Val(idx) })
 				elemOf(u.Field(idx).Type(), kv.Value)
 			}
-			cb.StructLit(typ, 2*len(e.Elts), true, e)
+			c.do("StructLit", 1-2*len(e.Elts), func() { cb.StructLit(typ, 2*len(e.Elts), true, e) })
 		} else {
 			for i, el := range e.Elts {
+				if _, ok := el.(*ast.KeyValueExpr); ok {
+					feError("mixture of field:value and value elements in struct literal")
+				}
 				if i < u.NumFields() {
 					elemOf(u.Field(i).Type(), el)
 				} else {
 					c.expr(el)
 				}
 			}
-			cb.StructLit(typ, len(e.Elts), false, e)
+			c.do("StructLit", 1-len(e.Elts), func() { cb.StructLit(typ, len(e.Elts), false, e) })
 		}
-		c.op("StructLit")
 	case *types.Map:
 		for _, el := range e.Elts {
 			kv, ok := el.(*ast.KeyValueExpr)
@@ -1238,12 +1524,11 @@ func (c *Compiler) compositeLit(e *ast.CompositeLit, elided types.Type) {
 			elemOf(u.Key(), kv.Key)
 			elemOf(u.Elem(), kv.Value)
 		}
-		cb.MapLit(typ, 2*len(e.Elts), e)
-		c.op("MapLit")
+		c.do("MapLit", 1-2*len(e.Elts), func() { cb.MapLit(typ, 2*len(e.Elts), e) })
 	case *types.Slice, *types.Array:
 		var elem types.Type
-		if s, ok := u.(*types.Slice); ok {
-			elem = s.Elem()
+		if sl, ok := u.(*types.Slice); ok {
+			elem = sl.Elem()
 		} else {
 			elem = u.(*types.Array).Elem()
 		}
@@ -1260,7 +1545,7 @@ func (c *Compiler) compositeLit(e *ast.CompositeLit, elided types.Type) {
 				elemOf(elem, kv.Value)
 			} else {
 				if keyed {
-					cb.None()
+					c.do("None", 1, func() { cb.None() })
 				}
 				elemOf(elem, el)
 			}
@@ -1269,11 +1554,9 @@ func (c *Compiler) compositeLit(e *ast.CompositeLit, elided types.Type) {
 			n *= 2
 		}
 		if _, ok := u.(*types.Slice); ok {
-			cb.SliceLit(typ, n, keyed)
-			c.op("SliceLit")
+			c.do("SliceLit", 1-n, func() { cb.SliceLit(typ, n, keyed) })
 		} else {
-			cb.ArrayLit(typ, n, keyed)
-			c.op("ArrayLit")
+			c.do("ArrayLit", 1-n, func() { cb.ArrayLit(typ, n, keyed) })
 		}
 	default:
 		feError("invalid composite literal type %v", typ)
